@@ -1152,8 +1152,55 @@ class Interp:
                     out.append((k2, p2, s3))
         return self._dd(out)
 
+    def _contextmanager_rewrite(self, s, st, fr):
+        """`with self.helper(): BODY` where helper is a generator-based context manager of this class that takes no
+        argument and has a single yield: execute  PRE; try: BODY finally: POST  (or PRE; BODY; POST when the yield
+        is unprotected) in place -- the helper only refers to self, so the caller's frame can run its statements."""
+        classes = getattr(self.domain, "classes", None)
+        if len(s.items) != 1 or classes is None or not isinstance(s.items[0].context_expr, ast.Call):
+            return None
+        call = s.items[0].context_expr
+        if call.args or call.keywords:
+            return None
+        hit = self.resolve_callee(call, st, fr, classes)
+        if hit is None:
+            return None
+        f, _, bind_self = hit
+        if not bind_self or len(f.args.args) != 1 or f.args.args[0].arg != fr.selfname:
+            return None
+        if not any((dotted(dd) or "").split(".")[-1] == "contextmanager" for dd in f.decorator_list):
+            return None
+        yields = [n for n in ast.walk(f) if isinstance(n, (ast.Yield, ast.YieldFrom))]
+        if len(yields) != 1 or isinstance(yields[0], ast.YieldFrom):
+            return None
+        body = [x for x in f.body if not (isinstance(x, ast.Expr) and isinstance(x.value, ast.Constant))]
+        bound = ([ast.Assign(targets=[s.items[0].optional_vars], value=yields[0].value or ast.Constant(value=None))] if s.items[0].optional_vars is not None else [])
+
+        def is_yield_stmt(x):
+            return isinstance(x, ast.Expr) and x.value is yields[0]
+
+        for i, x in enumerate(body):
+            if is_yield_stmt(x):
+                new = body[:i] + bound + list(s.body) + body[i + 1:]
+                break
+            if isinstance(x, ast.Try) and len(x.body) == 1 and is_yield_stmt(x.body[0]) and not x.handlers and not x.orelse:
+                t = ast.Try(body=bound + list(s.body), handlers=[], orelse=[], finalbody=x.finalbody)
+                new = body[:i] + [t] + body[i + 1:]
+                break
+        else:
+            return None
+        for n in new:
+            for sub in ast.walk(n):
+                if not hasattr(sub, "lineno"):
+                    sub.lineno, sub.col_offset, sub.end_lineno, sub.end_col_offset = s.lineno, s.col_offset, s.lineno, s.col_offset
+        self.functions.add(f)
+        return new
+
     def _with(self, s, st, fr):
         d = self.domain
+        rewritten = self._contextmanager_rewrite(s, st, fr) if getattr(d, "inline_contextmanagers", False) else None
+        if rewritten is not None:
+            return self.exec_block(rewritten, [st], fr)
         out = []
         entered = [st]
         for item in s.items:
